@@ -7,7 +7,8 @@ mkdir -p .build/bin
 go1.26 build -o .build/bin/instr-C13 ./engine/instr
 VERIF_ROOT="$PWD" .build/bin/instr-C13 -id C13 -out "$PWD/.build/instr-C13" \
   -swapsync logs/string_logger.go -builder logs/string_logger.go \
-  -swapsync logs/log.go -swapsync logs/multiple_logger.go -swapsync logs/writer.go -swapsync logs/json_logger.go
+  -swapsync logs/log.go -swapsync logs/multiple_logger.go -swapsync logs/writer.go -swapsync logs/json_logger.go \
+  -stdstreams logs/std_logger.go
 # the free-running race-detector companion is built WITHOUT the instrumentation (and with a candidate
 # development overlay if one is given): the detector must see the code's own synchronisation
 extra=()
